@@ -116,7 +116,8 @@ object_t from_constraint(const constraint_t& c, const Eigen::Index n, const std:
 // ---------------------------------------------------------------------------------------------
 // lattices of points and directions
 const char* const PATTERNS = "zero | ones | alternating +- | ramp (i+1)/n | one-hot first | one-hot last | generic multipliers in (-1,1) "
-                             "(thorough: two more generic multiplier vectors)";
+                             "(thorough: two more generic multiplier vectors); functions stage: plus the integer grid {-3..3}^n for n <= 2 "
+                             "(thorough n <= 3)";
 
 double pattern(const int p, const Eigen::Index i, const Eigen::Index n)
 {
@@ -616,7 +617,28 @@ void stage_functions(report_t& r, const args_t& args)
         ++prototypes_run;
         const auto desc = function->name() + (uses_summands ? " summands=" + std::to_string(s) : std::string());
         const auto o    = from_function(*function, id, desc);
-        const auto pts  = make_points(o.n, radii, T ? 8 : 6);
+        auto       pts  = make_points(o.n, radii, T ? 8 : 6);
+        // small integer grids: the points where the pieces of max-type functions tie exactly (e.g. x = (2,-3) for chained_cb3)
+        if (o.n <= (T ? 3 : 2))
+        {
+            const int side = 7; // coordinates -3..3
+            int       total = 1;
+            for (Eigen::Index i = 0; i < o.n; ++i)
+            {
+                total *= side;
+            }
+            for (int code = 0; code < total; ++code)
+            {
+                evec x(o.n);
+                int  rem = code;
+                for (Eigen::Index i = 0; i < o.n; ++i)
+                {
+                    x(i) = static_cast<double>(rem % side - 3);
+                    rem /= side;
+                }
+                push_unique(pts, x);
+            }
+        }
         const auto dirs = (T && o.n <= 8) ? make_dirs(o.n, true, true) : make_dirs(o.n, false);
         const auto one  = "functions:" + std::to_string(index);
         r.outcome(std::string("unit:") + (o.convex ? (o.mu > 0 ? "declared-strongly-convex" : "declared-convex") : "declared-nonconvex") +
